@@ -12,12 +12,21 @@ use std::cell::RefCell;
 use std::panic::{catch_unwind, AssertUnwindSafe};
 use std::rc::Rc;
 
-struct Cap { flags: TokenCaptureFlags, log: Rc<RefCell<Vec<Value>>> }
+struct Cap { flags: TokenCaptureFlags, log: Rc<RefCell<Vec<Value>>>, hints: Rc<RefCell<Vec<Value>>> }
+
+/// name of a tag as announced to the controller: known for hashable names (Debug of the hash), empty otherwise
+fn hint_name(n: &LocalName<'_>) -> Vec<u32> {
+    let d = format!("{n:?}");
+    // (the hash's Debug prints at most 12 characters; 13-character names can be hashable: treat 12 printed characters as unknown)
+    match d.strip_prefix("Hash(\"").and_then(|r| r.strip_suffix("\")")) { Some(x) if x.len() < 12 => s2cp(x), _ => vec![] }
+}
 
 impl TransformController for Cap {
     fn initial_capture_flags(&self) -> TokenCaptureFlags { self.flags }
-    fn handle_start_tag(&mut self, _: LocalName<'_>, _: Namespace) -> StartTagHandlingResult<Self> { Ok(self.flags) }
-    fn handle_end_tag(&mut self, _: LocalName<'_>) -> TokenCaptureFlags { self.flags }
+    // every tag is announced exactly once (as a hint from the tag scanner or when the lexer produces it): this is where
+    // the real controller runs selector matching
+    fn handle_start_tag(&mut self, n: LocalName<'_>, _: Namespace) -> StartTagHandlingResult<Self> { self.hints.borrow_mut().push(json!(["st", hint_name(&n)])); Ok(self.flags) }
+    fn handle_end_tag(&mut self, n: LocalName<'_>) -> TokenCaptureFlags { self.hints.borrow_mut().push(json!(["et", hint_name(&n)])); self.flags }
     fn handle_token(&mut self, token: &mut Token<'_>) -> Result<(), RewritingError> {
         let o = |x: Option<String>| match x { Some(s) => json!({"has": true, "v": s2cp(&s)}), None => json!({"has": false, "v": []}) };
         let v = match token {
@@ -36,8 +45,14 @@ impl TransformController for Cap {
 
 /// flags: bit set as in TokenCaptureFlags (TEXT 1, COMMENTS 2, START 4, END 8, DOCTYPES 16)
 pub fn capture(input: &[u8], cuts: &[usize], strict: bool, flags: u8) -> (Vec<Value>, String) {
+    let (toks, _, res) = capture_with_hints(input, cuts, strict, flags);
+    (toks, res)
+}
+
+pub fn capture_with_hints(input: &[u8], cuts: &[usize], strict: bool, flags: u8) -> (Vec<Value>, Vec<Value>, String) {
     let log = Rc::new(RefCell::new(Vec::new()));
-    let cap = Cap { flags: TokenCaptureFlags::from_bits_truncate(flags), log: log.clone() };
+    let hints = Rc::new(RefCell::new(Vec::new()));
+    let cap = Cap { flags: TokenCaptureFlags::from_bits_truncate(flags), log: log.clone(), hints: hints.clone() };
     let res = catch_unwind(AssertUnwindSafe(|| {
         let mut ts = TransformStream::new(TransformStreamSettings {
             transform_controller: cap,
@@ -57,5 +72,6 @@ pub fn capture(input: &[u8], cuts: &[usize], strict: bool, flags: u8) -> (Vec<Va
     }));
     let res = res.unwrap_or_else(|_| "panic".to_string());
     let toks = log.borrow().clone();
-    (toks, res)
+    let h = hints.borrow().clone();
+    (toks, h, res)
 }
